@@ -161,7 +161,7 @@ def _batch(D):
     m_user = w.m
     alg = W.dummy_algorithm(w, workers=workers, evaluator=kind)
     orc = Oracle(ctx, w, kind, m_user)
-    nb = 1 + D.dec('cfg', 'nbatches', 5)
+    nb = 1 + D.size('cfg', 'nbatches', 5)
     sizes = []
     allowed_resubmit = D.dec('cfg', 'resubmit', 4) == 1
     faulty = D.dec('cfg', 'wcfaults', 3) == 1
